@@ -28,10 +28,10 @@ type World struct {
 	Names []string                 // sorted short names
 	Files []string
 
-	sums    map[*ssa.Function]*Summary
+	sums          map[*ssa.Function]*Summary
 	prologueCheck func(*ssa.Function) (bool, string)
 	raiseBusy     map[*ssa.Function]bool
-	flowMem map[flowKey]*FlowResult
+	flowMem       map[flowKey]*FlowResult
 }
 
 // loadWorld loads the non-test files of the package at repo for GOARCH arch.
